@@ -12,7 +12,8 @@
 //!   {"id", "kind", "pred": class|null, "pred_kv", "pred_gh", "valid", "fmt", "ttl", "len",
 //!    "observed": "open"|<error kind>|"panic"|"hang"|"abort", "probe": "ok"|"panic"|"-",
 //!    "probe_errs", "modified", "kv", "extra", "recognisable", "nonempty", "oracle", "panics",
-//!    "mut", "amb": {the same observation with allow_ambiguous_legacy_recovery(true)}, "item"}
+//!    "notes", "amb": {the same observation with allow_ambiguous_legacy_recovery(true)}, "item",
+//!    "unconfirmed": {a hang/abort of the first run that a solitary second run did not reproduce}}
 use crate::layout as L;
 use crate::util::{err_name, watchdog, Opts};
 use feoxdb::FeoxStore;
@@ -27,6 +28,11 @@ const B: usize = L::BLOCK;
 /// one rank of model time in nanoseconds
 const U: u64 = 1_000_000_000;
 static PANICS: Mutex<Vec<String>> = Mutex::new(Vec::new());
+/// images that hung or killed their process so far (parent side); beyond `--max-bad` the run stops
+/// early: every hang costs a watchdog period and a systematic defect is established long before
+static BAD: AtomicUsize = AtomicUsize::new(0);
+/// resolved once at start: a rebuild of the harness while a run is in progress replaces the file
+static EXE: std::sync::OnceLock<std::path::PathBuf> = std::sync::OnceLock::new();
 
 // ------------------------------------------------------------------ model table
 
@@ -59,6 +65,9 @@ fn table_json(t: &Table) -> Value {
 }
 fn key_of(k: u64) -> Vec<u8> {
     format!("k{k}").into_bytes()
+}
+fn forged_key(sector: u64) -> Vec<u8> {
+    format!("kv{sector}").into_bytes()
 }
 fn ghost_key(sector: u64) -> Vec<u8> {
     format!("gh{sector}").into_bytes()
@@ -288,6 +297,12 @@ fn concretise(img: &Value, t: &Table, rng: &mut StdRng) -> Built {
                 put(&mut block, 0, &p);
             }
             "Xh" => block = forged_head(&tag, sector, fmt, rng),
+            "Xv" => {
+                // a record the reader must accept: valid token, forged timestamp / expiry
+                let (ts, exp) = if tag == "tsmax" { (u64::MAX, 0) } else { (3 * U, u64::MAX) };
+                block = L::encode_record(fmt, sector, &forged_key(sector), b"valid record with a forged time", ts, exp);
+                block.truncate(B);
+            }
             "M" => {
                 let rem = match tag.as_str() {
                     "rem0" => 0,
@@ -453,8 +468,10 @@ fn install_panic_hook() {
     std::panic::set_hook(Box::new(|info| {
         let loc = info.location().map(|l| format!("{}:{}", l.file(), l.line())).unwrap_or_else(|| "?".into());
         let msg = info.payload().downcast_ref::<&str>().map(|s| s.to_string()).or_else(|| info.payload().downcast_ref::<String>().cloned()).unwrap_or_default();
+        let line = format!("panicked at {loc}: {}", msg.chars().take(200).collect::<String>());
+        eprintln!("{line}");
         if let Ok(mut p) = PANICS.lock() {
-            p.push(format!("panicked at {loc}: {}", msg.chars().take(200).collect::<String>()));
+            p.push(line);
         }
     }));
 }
@@ -467,8 +484,10 @@ fn pin_cpus(base: usize, n: usize) {
     unsafe {
         let mut set: libc::cpu_set_t = std::mem::zeroed();
         libc::CPU_ZERO(&mut set);
+        // from the highest CPU downwards: other harness processes of this framework pin themselves
+        // to CPUs 0..n
         for i in 0..n {
-            libc::CPU_SET((base + i) % ncpu, &mut set);
+            libc::CPU_SET(ncpu - 1 - (base + i) % ncpu, &mut set);
         }
         libc::sched_setaffinity(0, std::mem::size_of::<libc::cpu_set_t>(), &set);
     }
@@ -511,8 +530,17 @@ fn probe(store: &FeoxStore, keys: &[Vec<u8>], tag: &str) -> (String, Vec<String>
         if let Err(e) = store.insert(b"probe", b"a value written after recovery") {
             note("insert", &e);
         }
+        // overwrite a recovered record (its extent is retired by the flush below) and a stray one
+        if let Err(e) = store.insert(&keys[0], b"overwritten after recovery") {
+            note("insert0", &e);
+        }
+        if let Some(k) = keys.get(3).filter(|_| keys.len() > 4) {
+            if let Err(e) = store.insert(k, b"stray key overwritten") {
+                note("insertx", &e);
+            }
+        }
         watchdog::beat(&format!("{tag} probe delete"));
-        if let Err(e) = store.delete(&keys[0]) {
+        if let Err(e) = store.delete(&keys[1]) {
             note("delete", &e);
         }
         watchdog::beat(&format!("{tag} probe flush"));
@@ -555,7 +583,7 @@ fn observe(path: &str, bytes: &[u8], ttl: bool, amb: bool, t: &Table, tag: &str)
             let extra: Vec<String> = snap.iter().filter(|r| !model_keys.contains(&r.key)).map(|r| String::from_utf8_lossy(&r.key).chars().take(24).collect()).collect();
             out["kv"] = json!(kv);
             out["extra"] = json!(extra);
-            out["len"] = json!(store.len());
+            out["records"] = json!(store.len());
             let mut keys = model_keys.clone();
             keys.push(b"kx".to_vec());
             keys.extend(snap.iter().filter(|r| !model_keys.contains(&r.key)).take(6).map(|r| r.key.clone()));
@@ -679,55 +707,127 @@ fn parse_line(line: &str) -> Option<Value> {
     serde_json::from_str(&body.replace("\\\"", "\"").replace("\\\\", "\\")).ok()
 }
 
+/// One child process over `items`. Returns (exit status, complete result lines, tail of stderr,
+/// phase reported by the watchdog if it fired).
+fn spawn_child(items: &[Value], table: &Table, o: &Opts, dir: &str, slot: usize, tag: &str, wd: u64, stacks_after_s: Option<u64>) -> (std::process::ExitStatus, Vec<Value>, String, Option<String>) {
+    let exe = EXE.get_or_init(|| std::env::current_exe().expect("current exe"));
+    let (list, outp, errp, sop) = (format!("{dir}/list_{tag}.ndjson"), format!("{dir}/res_{tag}.ndjson"), format!("{dir}/err_{tag}.txt"), format!("{dir}/out_{tag}.txt"));
+    let mut text = table_json(table).to_string();
+    text.push('\n');
+    for it in items {
+        text.push_str(&it.to_string());
+        text.push('\n');
+    }
+    std::fs::write(&list, text).expect("write list");
+    let mut cmd = std::process::Command::new(exe);
+    cmd.args(["images", "--child", "--list", &list, "--out", &outp, "--dir", dir, "--wd", &wd.to_string(), "--cpu-base", &(slot * 2).to_string()]);
+    if o.has("lean") {
+        cmd.arg("--lean");
+    }
+    let to_file = |p: &str| std::fs::File::create(p).map(std::process::Stdio::from).unwrap_or_else(|_| std::process::Stdio::null());
+    let mut proc = cmd.stdout(to_file(&sop)).stderr(to_file(&errp)).spawn().expect("spawn images child");
+    let started = std::time::Instant::now();
+    let mut stacks: Option<String> = None;
+    let status = loop {
+        match proc.try_wait() {
+            Ok(Some(st)) => break st,
+            Ok(None) => {}
+            Err(_) => break proc.wait().expect("wait for images child"),
+        }
+        // a solitary confirmation run that is stuck: thread backtraces of the code under test,
+        // taken before the child's own watchdog ends it
+        if let (Some(after), None) = (stacks_after_s, &stacks) {
+            if started.elapsed().as_secs() >= after {
+                stacks = Some(thread_stacks(proc.id()));
+            }
+        }
+        std::thread::sleep(std::time::Duration::from_millis(if stacks_after_s.is_some() { 100 } else { 5 }));
+    };
+    let lines: Vec<Value> = std::fs::read_to_string(&outp).unwrap_or_default().lines().filter_map(|l| serde_json::from_str(l).ok()).collect();
+    let stderr = std::fs::read_to_string(&errp).unwrap_or_default();
+    let tail: String = stderr.chars().rev().take(400).collect::<Vec<_>>().into_iter().rev().collect();
+    let phase = std::fs::read_to_string(&sop).unwrap_or_default().lines().filter_map(|l| serde_json::from_str::<Value>(l).ok()).find_map(|v| v.get("hang").and_then(|h| h.as_str()).map(|h| h.to_string()));
+    for p in [&list, &outp, &errp, &sop] {
+        let _ = std::fs::remove_file(p);
+    }
+    let phase = match (phase, stacks) {
+        (Some(p), Some(st)) => Some(format!("{p}\n{st}")),
+        (p, _) => p,
+    };
+    (status, lines, tail, phase)
+}
+
+/// `thread apply all bt` of a stuck child, reduced to the frames that name functions.
+fn thread_stacks(pid: u32) -> String {
+    let out = std::process::Command::new("timeout")
+        .args(["20", "gdb", "-p", &pid.to_string(), "-batch", "-ex", "set pagination off", "-ex", "thread apply all bt 14"])
+        .stderr(std::process::Stdio::null())
+        .output();
+    match out {
+        Ok(o) => String::from_utf8_lossy(&o.stdout)
+            .lines()
+            .filter(|l| l.starts_with("Thread ") || l.trim_start().starts_with('#'))
+            .map(|l| l.chars().take(220).collect::<String>())
+            .collect::<Vec<_>>()
+            .join("\n")
+            .chars()
+            .take(12000)
+            .collect(),
+        Err(e) => format!("gdb unavailable: {e}"),
+    }
+}
+
 fn run_chunk(items: &[Value], table: &Table, o: &Opts, dir: &str, slot: usize, chunk_no: usize) -> Vec<Value> {
-    let exe = std::env::current_exe().expect("current exe");
     let mut results: Vec<Value> = Vec::with_capacity(items.len());
     let mut start = 0;
     let mut round = 0;
-    while start < items.len() {
-        let (list, outp, errp) = (format!("{dir}/list_{chunk_no}_{round}.ndjson"), format!("{dir}/res_{chunk_no}_{round}.ndjson"), format!("{dir}/err_{chunk_no}_{round}.txt"));
-        let mut text = table_json(table).to_string();
-        text.push('\n');
-        for it in &items[start..] {
-            text.push_str(&it.to_string());
-            text.push('\n');
-        }
-        std::fs::write(&list, text).expect("write list");
-        let mut cmd = std::process::Command::new(&exe);
-        cmd.args(["images", "--child", "--list", &list, "--out", &outp, "--dir", dir, "--wd", o.get("wd").unwrap_or("10"), "--cpu-base", &(slot * 2).to_string()]);
-        if o.has("lean") {
-            cmd.arg("--lean");
-        }
-        let status = cmd
-            .stdout(std::process::Stdio::null())
-            .stderr(std::fs::File::create(&errp).map(std::process::Stdio::from).unwrap_or_else(|_| std::process::Stdio::null()))
-            .status()
-            .expect("spawn images child");
-        let lines: Vec<Value> = std::fs::read_to_string(&outp).unwrap_or_default().lines().filter_map(|l| serde_json::from_str(l).ok()).collect();
+    let max_bad: usize = o.num("max-bad", 16usize);
+    let wd: u64 = o.num("wd", 10u64);
+    while start < items.len() && BAD.load(Ordering::SeqCst) < max_bad {
+        let (status, lines, tail, phase) = spawn_child(&items[start..], table, o, dir, slot, &format!("{chunk_no}_{round}"), wd, None);
         let got = lines.len().min(items.len() - start);
         results.extend(lines.into_iter().take(got));
         start += got;
         if start < items.len() {
-            // the child stopped early: the item after the last reported one brought it down
+            // the child stopped early: the item after the last reported one brought it down.  The
+            // verdict needs solitary runs with a three times longer watchdog: on a loaded machine a
+            // process can be starved for seconds, and a rare race inside flush is not a property of
+            // the image either (it is kept, with thread backtraces, as `unconfirmed` evidence).
             let it = &items[start];
             let how = if status.code() == Some(3) { "hang" } else { "abort" };
-            let stderr = std::fs::read_to_string(&errp).unwrap_or_default();
-            let tail: String = stderr.chars().rev().take(400).collect::<Vec<_>>().into_iter().rev().collect();
-            let has_pred = it["kind"] == "model";
-            results.push(json!({
-                "id": it["id"], "kind": it["kind"], "observed": how, "status": format!("{status:?}"), "stderr": tail,
-                "pred": if has_pred { it["img"]["pred"][0].clone() } else { Value::Null },
-                "pred_kv": if has_pred { it["img"]["pred"][1].clone() } else { Value::Null },
-                "pred_gh": if has_pred { it["img"]["pred"][2].clone() } else { Value::Null },
-                "valid": has_pred && it["img"]["valid"] == true,
-                "probe": "-", "modified": Value::Null, "kv": [], "extra": [], "panics": [], "item": it.clone(),
-            }));
+            // up to two solitary runs: a verdict only if the image brings the process down every time
+            let mut last = (status, tail.clone(), phase.clone());
+            let mut history = vec![json!({"run": "batch", "observed": how, "status": format!("{status:?}"), "phase": phase, "stderr": tail})];
+            let mut passed: Option<Value> = None;
+            for attempt in 0..2 {
+                let (st2, mut lines2, tail2, phase2) = spawn_child(std::slice::from_ref(it), table, o, dir, slot, &format!("{chunk_no}_{round}c{attempt}"), wd * 3, (attempt == 0).then_some(wd * 2));
+                if let Some(r) = lines2.pop() {
+                    passed = Some(r);
+                    break;
+                }
+                history.push(json!({"run": format!("alone {attempt}"), "observed": if st2.code() == Some(3) { "hang" } else { "abort" }, "status": format!("{st2:?}"), "exit_code": st2.code(), "phase": phase2, "stderr": tail2}));
+                last = (st2, tail2, phase2);
+            }
+            if let Some(mut r) = passed {
+                r["unconfirmed"] = json!({"first_run": how, "phase": history[0]["phase"], "runs": history});
+                results.push(r);
+            } else {
+                let (status2, tail2, phase2) = last;
+                let how2 = if status2.code() == Some(3) { "hang" } else { "abort" };
+                BAD.fetch_add(1, Ordering::SeqCst);
+                let has_pred = it["kind"] == "model";
+                results.push(json!({
+                    "id": it["id"], "kind": it["kind"], "observed": how2, "status": format!("{status2:?}"), "exit_code": status2.code(), "stderr": tail2, "phase": phase2,
+                    "runs": history,
+                    "pred": if has_pred { it["img"]["pred"][0].clone() } else { Value::Null },
+                    "pred_kv": if has_pred { it["img"]["pred"][1].clone() } else { Value::Null },
+                    "pred_gh": if has_pred { it["img"]["pred"][2].clone() } else { Value::Null },
+                    "valid": has_pred && it["img"]["valid"] == true,
+                    "probe": "-", "modified": Value::Null, "kv": [], "extra": [], "panics": [], "item": it.clone(),
+                }));
+            }
             start += 1;
         }
-        for p in [&list, &outp, &errp] {
-            let _ = std::fs::remove_file(p);
-        }
-        // leftovers of a child that died between writing and removing an image
         round += 1;
     }
     results
@@ -738,6 +838,7 @@ pub fn main(args: &[String]) -> i32 {
     if o.has("child") {
         return child(&o);
     }
+    let _ = EXE.get_or_init(|| std::env::current_exe().expect("current exe"));
     let seed: u64 = o.num("seed", 1);
     let mut table = default_table();
     let mut items: Vec<Value> = Vec::new();
@@ -748,8 +849,13 @@ pub fn main(args: &[String]) -> i32 {
             return 2;
         }
     };
-    for line in text.lines() {
-        let Some(v) = parse_line(line) else { continue };
+    // a pretty-printed single JSON document (a saved replay) or one value per line
+    let values: Vec<Value> = match serde_json::from_str::<Value>(&text) {
+        Ok(Value::Array(a)) => a,
+        Ok(v) => vec![v],
+        Err(_) => text.lines().filter_map(parse_line).collect(),
+    };
+    for v in values {
         if let Some(t) = table_from(&v) {
             table = t;
         } else if v.get("kind").is_some() && v.get("id").is_some() {
@@ -804,7 +910,7 @@ pub fn main(args: &[String]) -> i32 {
             let (chunks, next, done, table, o, dir) = (&chunks, &next, &done, &table, &o, &dir);
             s.spawn(move || loop {
                 let c = next.fetch_add(1, Ordering::SeqCst);
-                if c >= chunks.len() {
+                if c >= chunks.len() || BAD.load(Ordering::SeqCst) >= o.num("max-bad", 16usize) {
                     break;
                 }
                 let r = run_chunk(chunks[c], table, o, dir, slot, c);
@@ -826,6 +932,15 @@ pub fn main(args: &[String]) -> i32 {
     }
     out.flush().unwrap();
     println!("{}", json!({"items": n, "model": n_model, "mutated": n_mut.min(if n_model > 0 { n_mut } else { 0 }), "random": o.num("random", 0usize),
-                          "observed": classes, "wall_s": started.elapsed().as_secs_f64()}));
-    if n == items.len() { 0 } else { 2 }
+                          "observed": classes, "wall_s": started.elapsed().as_secs_f64(),
+                          "stopped_early": n != items.len(), "planned": items.len()}));
+    // leftovers of children that died between writing and removing an image
+    if let Ok(rd) = std::fs::read_dir(&dir) {
+        for e in rd.flatten() {
+            if e.file_name().to_string_lossy().ends_with(".img") {
+                let _ = std::fs::remove_file(e.path());
+            }
+        }
+    }
+    if n == items.len() || BAD.load(Ordering::SeqCst) >= o.num("max-bad", 16usize) { 0 } else { 2 }
 }
